@@ -514,6 +514,9 @@ func opPool(rng *rand.Rand, w *world) Op {
 			return Op{Op: "tmake", X: "ta", I: intV(int64(rng.Intn(3)))}
 		}
 		tv := []V{intV(5), {T: "flt", S: "1.9", I: 1}, strV("s"), nilV}
+		if rng.Intn(4) == 0 {
+			return Op{Op: "in", X: "ta", V: append(tv, intV(1), intV(0))[rng.Intn(len(tv)+2)]}
+		}
 		if rng.Intn(2) == 0 {
 			return Op{Op: "append", X: "ta", V: tv[rng.Intn(len(tv))]}
 		}
